@@ -19,7 +19,7 @@ import common
 from common import bits2float, dec
 
 PROP = "C15"
-PROPS_FILES = ["Pms/Props/C15.lean"]
+PROPS_FILES = ["Pms/Props/C15.lean", "Pms/Props/C15F.lean"]
 GENERATORS = []
 RULE = ("seeded generator over routine {participation_ratio, local_vector_alignment+phase_quotient, divergence_curl, "
         "vibrability, vector_decomposition_sq, vector_fft_corr} × field kind {uniform, localised, random, linear u=A·r} × "
